@@ -29,7 +29,7 @@ def parseStrategy (s : String) (mb mu : Nat) : Option CtrlSt :=
   | _ => none
 
 def lTail (l : Local) : String :=
-  s!"max={l.max.bi},{l.max.uni} un={l.unalloc.bi},{l.unalloc.uni}"
+  s!"max={l.max.bi},{l.max.uni} un={l.unalloc.bi},{l.unalloc.uni} op={l.openedStreams .bi},{l.openedStreams .uni}"
 def rTail (r : Remote CtrlSt) : String :=
   s!"max={r.max.bi},{r.max.uni} un={r.unalloc.bi},{r.unalloc.uni}"
 
